@@ -597,23 +597,46 @@ func ruleExpiryRemoves(c *Ctx, rule string) {
 		perms := w.Field("allocation", "Allocation", "permissions")
 		c.Anchor(rule, "RemovePermission")
 		ok := false
-		for _, in := range fn.Blocks[0].Instrs {
+		w.eachInstr(fn, func(in ssa.Instruction) {
 			call, isC := in.(*ssa.Call)
 			if !isC {
-				continue
+				return
 			}
-			if b, isB := call.Call.Value.(*ssa.Builtin); isB && b.Name() == "delete" {
-				mb, mf, isLoad := fieldLoad(call.Call.Args[0])
-				kc, _ := callOf(call.Call.Args[1])
-				if isLoad && mf == perms && w.sameKey(mb, fn.Params[0]) && kc != nil && kc.Call.StaticCallee() == fp && w.sameKey(kc.Call.Args[0], fn.Params[1]) {
-					ok = true
+			b, isB := call.Call.Value.(*ssa.Builtin)
+			if !isB || b.Name() != "delete" {
+				return
+			}
+			mb, mf, isLoad := fieldLoad(call.Call.Args[0])
+			kc, _ := callOf(call.Call.Args[1])
+			if !(isLoad && mf == perms && w.sameKey(mb, fn.Params[0]) && kc != nil && kc.Call.StaticCallee() == fp && w.sameKey(kc.Call.Args[0], fn.Params[1])) {
+				return
+			}
+			// the delete may be conditional only on the presence of that very key
+			good := true
+			for _, f := range w.factsAt(in) {
+				pres := false
+				if f.Op == "true" && f.Truth {
+					if e, isE := f.X.(*ssa.Extract); isE && e.Index == 1 {
+						if lk, isL := e.Tuple.(*ssa.Lookup); isL && lk.CommaOk {
+							_, lf, isFL := fieldLoad(lk.X)
+							if isFL && lf == perms && w.sameKey(lk.Index, call.Call.Args[1]) {
+								pres = true
+							}
+						}
+					}
+				}
+				if !pres {
+					good = false
 				}
 			}
-		}
+			if good {
+				ok = true
+			}
+		})
 		if ok {
-			c.OK(rule, fname(fn), "RemovePermission", w.pos(fn.Pos()), "unconditionally delete(a.permissions, FingerprintAddr(addr))")
+			c.OK(rule, fname(fn), "RemovePermission", w.pos(fn.Pos()), "delete(a.permissions, FingerprintAddr(addr)) whenever that key is present")
 		} else {
-			c.Bad(rule, fname(fn), "RemovePermission", w.pos(fn.Pos()), "does not unconditionally delete key FingerprintAddr(addr) from the receiver's permissions")
+			c.Bad(rule, fname(fn), "RemovePermission", w.pos(fn.Pos()), "does not delete key FingerprintAddr(addr) from the receiver's permissions on every path where it is present")
 		}
 	}
 	// RemoveChannelBind: the store that shrinks channelBindings is on the Number==number edge
